@@ -803,6 +803,70 @@ def rule_mobilenet_factory(rep, repo):
     raise AnalysisError("instance-count only %d factory expansions" % n)
 
 
+def rule_deconv_length(rep, repo):
+  """R8: the output length the transposed convolutions ask the backend for.
+  `deconv_output_length` is interpreted on a grid of (input length, kernel,
+  stride, dilation, padding, output_padding) and compared with the length the
+  stock Keras transposed convolution produces (Keras' own
+  conv_utils.deconv_output_length, written out here as the trusted
+  reference): inferred lengths incl. stride > kernel, explicit output
+  padding, dilation."""
+  qc = repo.module("qkeras.qconvolutional")
+  fn = qc.functions.get("deconv_output_length")
+  if fn is None:
+    raise AnalysisError("anchor-missing qconvolutional.deconv_output_length")
+  unit = "%s::deconv_output_length" % qc.relpath
+  rep.unit(unit)
+  loc = qc.loc(fn)
+
+  def keras_length(n, k, padding, out_pad, stride, dilation):
+    k = k + (k - 1) * (dilation - 1)
+    if out_pad is None:
+      if padding == "valid":
+        return n * stride + max(k - stride, 0)
+      if padding == "full":
+        return n * stride - (stride + k - 2)
+      return n * stride
+    pad = {"same": k // 2, "valid": 0, "full": k - 1}[padding]
+    return (n - 1) * stride + k - 2 * pad + out_pad
+  n_pts = 0
+  pe = PE(repo)
+  f = pe.lookup_global("deconv_output_length", qc)
+  for n in (1, 4, 7):
+    for k in (1, 2, 3, 5):
+      for stride in (1, 2, 3, 4):
+        for dilation in (1, 2):
+          for padding in ("valid", "same", "full"):
+            for out_pad in (None, 0, 1):
+              if out_pad is not None and out_pad >= stride:
+                continue     # Keras rejects output_padding >= stride
+              cfg = "deconv_output_length(%d, %d, %r, output_padding=%r, " \
+                  "stride=%d, dilation=%d)" % (n, k, padding, out_pad,
+                                                stride, dilation)
+              try:
+                got = pe.call(f, [n, k, padding], {
+                    "output_padding": out_pad, "stride": stride,
+                    "dilation": dilation})
+              except PyRaise as e:
+                rep.fail("R8", unit, "raises", "%s raises %s" % (cfg, e),
+                         loc=loc, instance=cfg)
+                continue
+              want = keras_length(n, k, padding, out_pad, stride, dilation)
+              n_pts += 1
+              rep.check(isinstance(got, (int, F)) and got == want, "R8",
+                        unit, "transposed-output-length:" + (
+                            "inferred" if out_pad is None else "explicit") +
+                        ":" + padding,
+                        "%s = %r; the stock Keras layer produces %d" % (
+                            cfg, got, want), loc=loc, instance=cfg,
+                        observed=repr(got))
+  got_none = pe.call(f, [None, 3, "valid"], {"stride": 2})
+  rep.check(got_none is None, "R8", unit, "unknown-input-length",
+            "an unknown input length gives %r, expected None" % (got_none,),
+            loc=loc)
+  rep.extra["deconv_length_points"] = n_pts
+
+
 def rule_dead_options(rep, repo):
   classes = list(SPECS) + ["qkeras.qpooling.QAveragePooling2D",
                            "qkeras.qpooling.QGlobalAveragePooling2D",
@@ -966,6 +1030,8 @@ def run(rep, repo, tier):
   rule_reported_by_layer(rep, repo)
   rule_mobilenet_factory(rep, repo)
   rep.require_instances("R7", 20)
+  rule_deconv_length(rep, repo)
+  rep.require_instances("R8", 400)
   rule_dead_options(rep, repo)
   rule_pooling(rep, repo)
   rep.require_instances("R1", 50)
